@@ -253,6 +253,45 @@ def collect_dir(d):
     return out
 
 
+def collect_vanishing(mod, d):
+    """collect() while gauge_livesum_777.db is removed right after the first directory listing (or, at the latest, just
+    before the first file is read)"""
+    import glob as _glob
+    victim = os.path.join(d, 'gauge_livesum_777.db')
+    import json
+    write_complete(mod, victim, [(json.dumps(['vg', 'vg', {}, 'help vg'], sort_keys=True), 4.0, 0.0)])
+    armed = [True]
+
+    def fire():
+        if armed[0]:
+            armed[0] = False
+            os.unlink(victim)
+    og, oi, ol = _glob.glob, _glob.iglob, os.listdir
+    orf = mod.MmapedDict.__dict__['read_all_values_from_file']
+
+    def hg(*a, **k):
+        r = og(*a, **k); fire(); return r
+
+    def hi(*a, **k):
+        r = list(oi(*a, **k)); fire(); return iter(r)
+
+    def hl(*a, **k):
+        r = ol(*a, **k); fire(); return r
+
+    def hr(filename):
+        fire()
+        return orf.__func__(filename)
+    _glob.glob, _glob.iglob, os.listdir = hg, hi, hl
+    mod.MmapedDict.read_all_values_from_file = staticmethod(hr)
+    try:
+        return collect_dir(d)
+    finally:
+        _glob.glob, _glob.iglob, os.listdir = og, oi, ol
+        mod.MmapedDict.read_all_values_from_file = orf
+        if os.path.exists(victim):
+            os.unlink(victim)
+
+
 def observe_cut(mod, raw, tmp, coll, others):
     """Observations on a private copy of one cut file."""
     cdir = os.path.join(tmp, 'cut')
@@ -267,6 +306,9 @@ def observe_cut(mod, raw, tmp, coll, others):
         for name, ents in others:
             write_complete(mod, os.path.join(cdir, name), ents)
         extra['collect'] = attempt(lambda: collect_dir(cdir))
+        # a dead worker's live gauge file vanishes (mark_process_dead) between the collector's listing and its reads:
+        # the scrape must succeed and report what the directory holds without that file
+        extra['collect_vanish'] = attempt(lambda: collect_vanishing(mod, cdir))
         # the same directory with the cut file replaced by a complete file holding what the reader returned
         if reader[0] == 'ok':
             os.unlink(p1)
@@ -586,6 +628,12 @@ def direct(case, obs):
         if 'collect' in extra:
             if extra['collect'][0] != 'ok':
                 return '%s: MultiProcessCollector.collect() raised %s with this worker file in the directory' % (what, extra['collect'][1])
+            cv = extra.get('collect_vanish')
+            if cv is not None and cv[0] != 'ok':
+                return ('%s: collect() raised %s when a dead worker\'s live gauge file vanished between listing and reading: one dead '
+                        'worker made the whole scrape fail' % (what, cv[1]))
+            if cv is not None and cv != extra['collect']:
+                return '%s: collect() with a vanishing live gauge file reports %r, without the file %r' % (what, cv, extra['collect'])
             if extra.get('collect_clean') != extra['collect']:
                 return '%s: collect() over the cut file %r differs from collect() over the equivalent complete file %r' % (
                     what, extra['collect'], extra.get('collect_clean'))
